@@ -436,7 +436,7 @@ def correspondence(ctx):
     # the package oracle for entity constructs runs on every check (see builders/c12_xmlcheck.py for why); so does the
     # archive oracle (duplicate member names, coder chains): a change there leaves results and unique-name / single-coder
     # archives alone, so nothing else would call for a search
-    return {"broken": broken, "violations": XC.sweep(ctx, Violation) + _oracle_archives(ctx)}
+    return {"broken": broken, "violations": XC.sweep(ctx, Violation) + _oracle_archives(ctx) + _oracle_deferred(ctx)}
 
 
 # ============================================================================ oracle (property statement on the real code)
@@ -552,6 +552,31 @@ def _oracle_loops(ctx, extra):
     return out
 
 
+def _deferred_violation(lim, s0, s1):
+    d, got = X.read_file_deferred(lim, s0, s1)
+    if lim > 0 and s1 > lim and (d == "accept" or got > lim):
+        return Violation("limit.read_file-judges-another-file",
+                         f"read_file(max_file_size={lim}) obtained while the file had {s0} bytes, consumed after it had grown to {s1} bytes: "
+                         f"{d}, {got} characters delivered — the limit was judged on a file that is not the one read",
+                         {"kind": "read_file_deferred", "limit": lim, "size_at_call": s0, "size_at_read": s1})
+    if d.startswith("ERR") or (d == "reject" and not (lim > 0 and (s0 > lim or s1 > lim))):
+        return Violation("limit.read_file-deferred", f"read_file(max_file_size={lim}), {s0} bytes at the call, {s1} bytes when consumed: {d}",
+                         {"kind": "read_file_deferred", "limit": lim, "size_at_call": s0, "size_at_read": s1})
+    return None
+
+
+def _oracle_deferred(ctx):
+    """the size guard and the read look at the same file: histories call -> the file changes -> the result is consumed"""
+    out = []
+    for lim, s0, s1 in ((1000, 10, 1001), (1000, 1000, 5000), (4096, 0, 65536), (7, 7, 8), (1000, 10, 1000), (1000, 999, 20), (0, 5, 50000)):
+        ctx.case(("deferred", lim, s0, s1))
+        ctx.count("limits/read_file-deferred")
+        v = _deferred_violation(lim, s0, s1)
+        if v is not None and not any(x.key == v.key for x in out):
+            out.append(v)
+    return out
+
+
 def _oracle_limits(ctx):
     out = []
 
@@ -566,6 +591,7 @@ def _oracle_limits(ctx):
             if d != want:
                 add("limit.read_file", f"read_file(max_file_size={lim}) on a {s}-byte file: {d}, the statement says {want}",
                     {"kind": "read_file", "limit": lim, "size": s})
+    out += _oracle_deferred(ctx)
     for s in (default - 1, default, default + 1):
         d = X.read_file_decision(None, s, pass_default=True)
         want = "reject" if s > default else "accept"
@@ -1015,6 +1041,9 @@ def replay(ctx, payload):
         eff = 100 * MB if lim is None else lim
         want = "reject" if (eff > 0 and s > eff) else "accept"
         return d == want, f"read_file(max_file_size={lim}) on {s} bytes: {d} (statement: {want})"
+    if kind == "read_file_deferred":
+        v = _deferred_violation(rep["limit"], rep["size_at_call"], rep["size_at_read"])
+        return v is None, v.what if v else "the limit is judged on the file that is read"
     if kind == "7z_size":
         d = X.sevenzip_size_decision(rep["size"])
         want = "reject" if rep["size"] > 100 * MB else "accept"
